@@ -18,7 +18,8 @@ EXPLANATION = (
     "adjacency of the current vertex (TAIL), its head (HEAD) is appended exactly once to the walk under construction, TAIL is pushed "
     "exactly once on the shared stack (so that further closed walks hanging off it are found later) and the current vertex becomes HEAD; "
     "the residual graph receives round(value) copies of each edge under the key of that same edge and layer; the splice inserts the "
-    "closed walk minus its duplicated first vertex right after the anchor's first occurrence; an all-zero layer yields [].  "
+    "closed walk minus its duplicated first vertex right after the anchor's first occurrence; an all-zero layer yields []; in node-weighted mode the walk handed out is "
+    "obtained from the internal walk by the reader that matches the expansion scheme (one original node per entry node, step 2).  "
     "NOT decided: that one single s-t walk results for every Eulerian multigraph (Hierholzer's correctness), connectivity assumptions."
 )
 DECIDED = ["no edge dropped, none invented: linear use of residual edges in the two trail loops",
@@ -253,3 +254,6 @@ def check(prog: Program, rep):
     splice_rule(prog, rep, "C14.R1")
     rep.rule("C14.R2", "all-zero layer yields an empty walk", floor=1)
     empty_walk_rule(prog, rep, "C14.R2")
+    rep.rule("C14.R3", "node-weighted mode: the walk handed out is the condensed internal walk (every second node, entry suffix, own-length strip)", floor=12)
+    from rules.common import node_mode_plumbing
+    node_mode_plumbing(prog, rep, "C14.R3")
